@@ -478,6 +478,27 @@ def constInequalityMacro (goal : AExpr) : Except Err Thm :=
       if cmpHolds op l r then .ok ⟨goal⟩ else .error .assertion
   | _ => .error .notImpl
 
+/-! ### the decision of `eval_inequality_expr` from bounds (fixes/C05-2)
+
+When a side is not evaluated exactly the Python has only an enclosure `lo ≤ value ≤ hi` of each
+side (`eval_bounds`: equal bounds from `real_eval`, otherwise outward-rounded interval arithmetic).
+The final `if` chain of `eval_inequality_expr` is mirrored here over rational bounds; the interval
+evaluator itself is not modelled. -/
+
+/-- the six statements `eval_inequality_expr` dispatches on -/
+inductive Rel where
+  | eq | ne | cmp (op : Cmp)
+  deriving DecidableEq, Repr, Inhabited
+
+/-- `eval_inequality_expr`, last `if` chain: accept `side1 REL side2` from the bounds. -/
+def intervalAccept : Rel → Rat → Rat → Rat → Rat → Bool
+  | .eq, lo1, hi1, lo2, hi2 => lo1 == hi1 && lo2 == hi2 && lo1 == lo2
+  | .ne, lo1, hi1, lo2, hi2 => decide (hi1 < lo2) || decide (hi2 < lo1)
+  | .cmp .ge, lo1, _, _, hi2 => decide (hi2 ≤ lo1)
+  | .cmp .gt, lo1, _, _, hi2 => decide (hi2 < lo1)
+  | .cmp .le, _, hi1, lo2, _ => decide (hi1 ≤ lo2)
+  | .cmp .lt, _, hi1, lo2, _ => decide (hi1 < lo2)
+
 /-- The checker's treatment of a trusted macro step: evaluate, then `check_thm_type`. -/
 def checked (m : AExpr → Except Err Thm) (goal : AExpr) : Except Err Thm := do
   let th ← m goal
